@@ -136,3 +136,69 @@ def c05(c):
         exhaustive=False,
         exhaustive_subspaces=["every index n in [-(size/s)-8, size/s+8] for +, - and &[] with a plain 64-bit index from three bases, for the pointees int, long[3], struct PA (quick) plus long, int* (thorough)"],
         assumptions=["the model backend's membership predicate is exact (both regions compared by range, not by mask)"]))
+
+
+# --------------------------------------------------------------------- C17
+C17_T = {"char": ("char", "char"), "short": ("short", "int16_t"), "int": ("int", "int32_t"), "long": ("long", "int32_t"),
+         "double": ("double", "double"), "intp": ("int*", "uint32_t"), "ulong": ("unsigned long", "uint32_t")}
+
+
+def c17_header(path, holders):
+    """holders: list of (tkey, N) or (tkey, N, M)"""
+    o = ["#pragma once", "#include <cstdint>"]
+    cls, each = [], []
+    for h in holders:
+        t, g = C17_T[h[0]]
+        if len(h) == 2:
+            name = "H_%s_%d" % (h[0], h[1])
+            dims = "[%d]" % h[1]
+            each.append("F1(%s, %s, %d, G%s)" % (name, t.replace("int*", "int*"), h[1], name))
+        else:
+            name = "H2_%s_%d_%d" % (h[0], h[1], h[2])
+            dims = "[%d][%d]" % (h[1], h[2])
+            each.append("F2(%s, %s, %d, %d, G%s)" % (name, t, h[1], h[2], name))
+        o.append("struct %s { long pre; %s arr%s; long post; };" % (name, t, dims))
+        o.append("struct G%s { int32_t pre; %s arr%s; int32_t post; };" % (name, g, dims))
+        ft = "%s%s" % (t, dims) if t != "int*" else "int*%s" % dims
+        o.append("#define sandbox_fields_reflection_c17_class_%s(f, g, ...) f(long, pre, FIELD_NORMAL, ##__VA_ARGS__) g() "
+                 "f(%s, arr, FIELD_NORMAL, ##__VA_ARGS__) g() f(long, post, FIELD_NORMAL, ##__VA_ARGS__) g()" % (name, ft))
+        cls.append("f(%s, c17, ##__VA_ARGS__)" % name)
+    o.append("#define sandbox_fields_reflection_c17_allClasses(f, ...) " + " ".join(cls))
+    o.append("rlbox_load_structs_from_library(c17);")
+    o.append("#define C17_FOR_EACH_HOLDER(F1, F2) " + " ".join(each))
+    os.makedirs(os.path.dirname(path), exist_ok=True)
+    open(path, "w").write("\n".join(o) + "\n")
+
+
+@plan("C17")
+def c17(c):
+    if c.thorough:
+        hs = [("long", n) for n in range(1, 17)] + [("char", n) for n in range(1, 17)] + \
+             [("short", 7), ("int", 4), ("double", 2), ("intp", 5), ("ulong", 9), ("int", 2, 3), ("long", 3, 2), ("char", 4, 4), ("long", 1, 5)]
+        ntu = 16
+    else:
+        hs = [("char", 1), ("char", 16), ("short", 7), ("int", 4), ("long", 3), ("long", 16), ("double", 2), ("intp", 5),
+              ("int", 2, 3), ("long", 3, 2)]
+        ntu = 5
+    units, runs = [], []
+
+    def gen(cx):
+        for k in range(ntu):
+            c17_header(os.path.join(cx.bdir, "inc%d" % k, "c17_structs.hpp"), hs[k::ntu])
+        return True, ""
+    for k in range(ntu):
+        nm = "c17_g%d" % k
+        units.append(dict(name=nm, srcs=[D + "c17_arrayidx.cpp"], build="asan0", defs=EXC + ["CFG=vsbx_ilp32"],
+                          flags=["-I" + os.path.join(c.bdir, "inc%d" % k)]))
+        runs.append(dict(unit=nm, label=nm))
+    return dict(units=units, runs=runs, pre=[gen], evidence=dict(
+        level="exploration",
+        rule="case = (array location in {struct field in sandbox memory, malloc'ed array in sandbox memory, struct field in application memory, "
+             "standalone tainted<T[N]>}, element type, length, index type x wrapper, index value). Oracle: 0<=i<N => no abort and the designated "
+             "address is start+i*element size of the memory the array lives in (guest size in sandbox memory, host size in application memory), "
+             "otherwise abort; a write through every valid index of a sandbox-resident array must change exactly that element of the guest image. "
+             "8- and 16-bit index types are enumerated completely; wider ones get -1, N, N+-1, type limits and 2^k+i aliases of every valid i. "
+             "Distinct = (location, holder, index type, wrapper) combinations swept.",
+        exhaustive=False,
+        exhaustive_subspaces=["all values of every 8- and 16-bit index type for every holder and location"],
+        assumptions=["ILP32 model backend; guest layout from independently declared fixed-width structs"]))
